@@ -1,5 +1,5 @@
 CONSTANTS MaxFrags = 2
- Kinds = {"func", "method", "var", "const", "type", "grouped", "comment", "directive", "tmpl", "group1", "octal", "oddcomment", "rawsplit", "retsplit", "skipref"}
+ Kinds = {"func", "method", "var", "const", "type", "grouped", "comment", "directive", "tmpl", "group1", "octal", "oddcomment", "initfn", "rawsplit", "retsplit", "skipref"}
  Noises = {"none", "split"}
  FirstNoises = {"none", "leading_blank", "trailing_blank", "odd_spacing", "no_final_newline", "two_on_one", "split"}
  RefModes = {"all", "clash"}
